@@ -49,13 +49,16 @@ theorem C06_fatal_iff (v : Vendor) (rules : Rules) (path : List String) (t t0 : 
   Lemmas.fatal_iff v rules path t t0 h
 
 /-- Below a row governed by a deletable `~ %global` rule (the rules handed to its children are exactly
-that global rule) every non-empty row at every depth survives, in every mode. -/
+that global rule) every non-empty row at every depth survives, in every mode.
+`hg`: the run stays inside the modelled grammar (it leaves it iff the vendor's negation word makes the
+reverse row `<word> ~` unparsable, e.g. an empty word or one with a regex metacharacter). -/
 theorem C06_global_tilde_covers_everything (v : Vendor) (fatal excl : Bool) (cd : List Bool) (prio : Nat)
     (names : List String) (id : String) (path : List String) (t : Cfg)
     (hj : v.juniper = false) (hcd : cd.all (fun b => b) = false) (hne : allRowsNonEmpty t = true)
-    (hx : (names.zip cd).length ≤ 1 ∨ excl = false) :
+    (hx : (names.zip cd).length ≤ 1 ∨ excl = false)
+    (hg : NoGrammarErr (applyAcl v fatal excl ⟨[], [Rule.mk id "~" false cd prio names none]⟩ path t)) :
     applyAcl v fatal excl ⟨[], [Rule.mk id "~" false cd prio names none]⟩ path t = .ok t :=
-  Lemmas.global_tilde_covers_everything v fatal excl cd prio names id path t hj hcd hne hx
+  Lemmas.global_tilde_covers_everything v fatal excl cd prio names id path t hj hcd hne hx hg
 
 /-! ### Merge monotonicity is false of the code
 
